@@ -84,12 +84,12 @@ IntDivV(x, y) ==
 
 (* x / y on f64 values; exact when the (odd) divisor mantissa divides         *)
 CanFltDiv(x0, y0) ==
-    LET x == NormV(x0)  y == NormV(y0) IN y.n = 0 \/ x.n % y.n = 0
+    LET x == NormV(x0)  y == NormV(y0) IN y.n = 0 \/ x.n % Abs(y.n) = 0
 FltDivV(x0, y0) ==
     LET x == NormV(x0)  y == NormV(y0) IN
     IF y.n = 0
     THEN (IF x.n > 0 THEN ValS("inf") ELSE IF x.n < 0 THEN ValS("-inf") ELSE ValS("nan"))
-    ELSE NormV(Val(x.n \div y.n, x.e - y.e))      \* exact: remainder is 0
+    ELSE NormV(Val(Sgn(y.n) * (x.n \div Abs(y.n)), x.e - y.e))      \* exact: remainder is 0
 
 (* ---- terms <-> values --------------------------------------------------- *)
 (* "-0" is the float negative zero: numerically zero *)
